@@ -1270,7 +1270,6 @@ def run(ck):
         "(a definition is rejected: decl.c \"parameter of function definition has incomplete type\"); "
         "6.8.6.1p1 goto into the scope of a variably modified identifier",
         "6.3.2.1p1 assignment to a struct/union object that has a const-qualified member (`s1 = s2`) accepted",
-        "6.7.2.2 `enum E : _Bool { A = 2 };` accepted (known finding C05 enum-bool-range; enum_value_accept_sound_counterexample)",
     ]
 
     if uncovered:
